@@ -109,6 +109,9 @@ func setupUpd(c UpdCase) *updEnv {
 	tree["regex-assembly/"+c.Arg()+".ra"] = c.Prog.MainText()
 	tree["rules/"+c.Rules.Name] = text
 	tree["rules/REQUEST-901-INITIALIZATION.conf"] = "# other file\nSecRule ARGS \"@rx untouched\" \\\n    \"id:901100,\\\n    phase:1\"\n"
+	// a second, unrelated assembly file whose rule is in sync and which sorts after every 932 target
+	tree["regex-assembly/933100.ra"] = "insync\n"
+	tree["rules/REQUEST-933-APPLICATION-ATTACK-PHP.conf"] = "SecRule ARGS \"@rx insync\" \\\n    \"id:933100,\\\n    phase:2\"\n"
 	tree["tests/regression/tests/x/932100.yaml"] = "---\nmeta:\n  name: x\ntests:\n  - test_id: 7\n"
 	root := sb.Path("crs")
 	if err := tree.Write(root); err != nil {
